@@ -44,24 +44,13 @@ func evalShow(n ast.IsNode, env eval.Env) (s string) {
 	return
 }
 
-// sameEval compares two nodes on env; a result that is itself unstable across runs (Go map iteration
-// order deciding which of two errors is reported — C14's concern) is compared as a set.
+// sameEval compares two nodes on env.  The evaluator is a function of (expression, environment) — results
+// used to be compared as sets because a record literal with two failing entries reported whichever error
+// the Go map met first (C14); since `fix: evaluate the entries of a record literal in key order` they are
+// compared directly.
 func sameEval(a, b ast.IsNode, env eval.Env) (bool, string, string) {
 	x, y := evalShow(a, env), evalShow(b, env)
-	if x == y {
-		return true, x, y
-	}
-	xs, ys := map[string]bool{x: true}, map[string]bool{y: true}
-	for i := 0; i < 12; i++ {
-		xs[evalShow(a, env)] = true
-		ys[evalShow(b, env)] = true
-	}
-	for k := range xs {
-		if ys[k] {
-			return true, x, y
-		}
-	}
-	return false, x, y
+	return x == y, x, y
 }
 
 func scopesShow(p *ast.Policy) string {
